@@ -10,6 +10,7 @@ T0 = datetime(2000, 1, 1)
 
 
 TICK = [timedelta(minutes=1)]  # the time lattice unit (H-SCHED runs may use other ticks, e.g. 1/3 s or 1 day)
+EPOCH = [T0]  # origin of the lattice (H-SCHED runs may start at other dates: before 1970, across 2038, far future)
 
 
 def tick():
@@ -18,11 +19,11 @@ def tick():
 
 def tm(minutes):
     """time on the integer lattice (default tick: one minute)"""
-    return T0 + int(minutes) * TICK[0]
+    return EPOCH[0] + int(minutes) * TICK[0]
 
 
 def mins(t):
-    return None if t is None else int(round((t - T0) / TICK[0]))
+    return None if t is None else int(round((t - EPOCH[0]) / TICK[0]))
 
 
 def make_adapter(spec):
